@@ -40,7 +40,18 @@ static void on_vtalrm(int) {
 	_exit(78);
 }
 
+static int g_watchdog_secs = 0;
+// multi-evaluation runs re-arm the watchdog before every evaluation
+void sim_watchdog_kick() {
+	if (g_watchdog_secs <= 0) return;
+	struct itimerval it;
+	memset(&it, 0, sizeof it);
+	it.it_value.tv_sec = g_watchdog_secs;
+	setitimer(ITIMER_VIRTUAL, &it, nullptr);
+}
+
 static void arm_watchdog(int secs) {
+	g_watchdog_secs = secs;
 	struct itimerval it;
 	memset(&it, 0, sizeof it);
 	it.it_value.tv_sec = secs;
